@@ -281,6 +281,17 @@ func runC04(c *ctx) {
 			c04Eval(c, c04Case{Dir: "print-parse", Msg: m})
 		}
 	}
+	// deep nesting (the printed form of any tree the constructors build must parse back)
+	for _, depth := range []int{50, 99, 100, 101, 120, 250, c.pick(600, 2500)} {
+		it := &ref.Item{Kind: ref.U1, Slots: []ref.Slot{{Uint: 7}, {Var: "deep"}}}
+		for i := 0; i < depth; i++ {
+			it = &ref.Item{Kind: ref.L, Children: []*ref.Item{it}}
+		}
+		m := g.Msg(it, false)
+		m.Session = -1
+		c.Class("deep-nesting")
+		c04Eval(c, c04Case{Dir: "print-parse", Msg: m})
+	}
 	// converse: accepted texts with varied literal forms and layouts
 	c.parallel(c.pick(20000, 500000), func(i int, r *rng.R) {
 		g := gen.New(r, expressibleProfile(r, i))
@@ -303,7 +314,7 @@ func runC04(c *ctx) {
 		txt := smltext.Render(toks, lead, gaps, smltext.CaseSpelling(r, toks)).Text
 		c04Eval(c, c04Case{Dir: "fixed-point", Text: txt})
 	})
-	c.Required = []string{"print-parse/ascii=plain", "print-parse/ascii=+quote", "print-parse/ascii=+backslash", "print-parse/ascii=+control", "fixed-point/accepted-text", "every-ascii-character"}
+	c.Required = []string{"print-parse/ascii=plain", "print-parse/ascii=+quote", "print-parse/ascii=+backslash", "print-parse/ascii=+control", "fixed-point/accepted-text", "every-ascii-character", "deep-nesting"}
 }
 
 func replayC04(c *ctx, raw json.RawMessage) {
